@@ -1,4 +1,5 @@
 import CifModel.Lemmas.DefectCharsSeg
+import CifModel.Lemmas.DefectCharsPlain
 import CifModel.Props.C12Chars
 import CifModel.Props.C12Two
 /-
@@ -513,6 +514,66 @@ theorem C12_chars_dup_header_name_partial_packet (o : Opts) (cs : List Chunk) (p
     allPacked_run o pre post _ seen2 hpre hpost (allPacked_loop o _ _ (by simp))
   rw [hp, denote_plain, ← pruneC_packed bc [] _ hpk, denoteItems_append, denoteItems_append, e]
 
+/-! ### save frames not allowed (`max_frame_depth = 0`) -/
+
+/-- a text without save frames except for the one reported: frame-free well-formed blocks around the block `bc` -/
+structure PlainHost (o : Opts) (cs : List Chunk) (preB postB : List Block) (bc : Str) (T : List TokSpec) : Prop extends TextOk o cs where
+  plainPre : plainBlocks preB
+  plainPost : plainBlocks postB
+  wfPreB : wfBlocks o preB [] = true
+  wfBc : wfCode bc = true
+  fresh : ∀ b ∈ preB, o.norm b.code ≠ o.norm bc
+  wfPostB : wfBlocks o postB (o.norm bc :: preB.map (fun b => o.norm b.code)) = true
+  hToks : toks cs = blocksToks preB ++ ((.blockHead, bc) :: (T ++ blocksToks postB))
+
+/-- **C12_chars_frame_not_allowed** — `max_frame_depth = 0`: a save frame `save_fc body save_` among the items of a data block of
+    a text that has no other save frame.  One report, CIF_FRAME_NOT_ALLOWED, at the frame header; the frame is accepted: the
+    content is that of the document as it stands. -/
+theorem C12_chars_frame_not_allowed (o : Opts) (cs : List Chunk) (preB postB : List Block) (bc : Str) (pre post : List Item)
+    (fc : Str) (body : List Item) (seen2 : List Str) (hmfd : o.maxFrameDepth = 0)
+    (H : PlainHost o cs preB postB bc
+      (itemsToks pre ++ ((.frameHead, fc) :: (itemsToks body ++ (.frameTerm, []) :: itemsToks post))))
+    (hpre : wfItems o pre [] = true) (hcode : wfCode fc = true) (hwb : wfItems o body [] = true)
+    (hpost : wfItems o post seen2 = true)
+    (hseen2 : ∀ k ∈ normNames o (denoteItems o.dia o.normKey pre []), k ∈ seen2) :
+    Reports o cs [(CIF_FRAME_NOT_ALLOWED, (blocksToks preB).length + 1 + ((itemsToks pre).length + 0))]
+      (denote o.dia o.normKey (preB ++ [{ code := bc, body := pre.map Elem.plain ++ [.frame fc (body.map Elem.plain)] ++ post.map Elem.plain }]
+        ++ postB)) := by
+  obtain ⟨c, rest, hc, hfirst, hbom⟩ := H.first
+  have z1 := Lemmas.WriterChunks.szItems_toks pre
+  have z2 := Lemmas.WriterChunks.szItems_toks post
+  have z3 := Lemmas.WriterChunks.szItems_toks body
+  have hnewc : ∀ x ∈ denote o.dia o.normKey preB, codeIs o.norm (o.norm bc) x = false := by
+    intro x hx
+    obtain ⟨b, hb, hcb⟩ := denote_code hx
+    simp only [codeIs, hcb, beq_eq_false_iff_ne, ne_eq]
+    exact H.fresh b hb
+  obtain ⟨rs, h1, h2, h3⟩ := block_segs_plain_chars o H.store H.utf cs c rest preB postB H.plainPre H.plainPost bc _
+    [.mk fc [] (denoteItems o.dia o.normKey body [])] (denoteItems o.dia o.normKey (pre ++ post) [])
+    [(CIF_FRAME_NOT_ALLOWED, (itemsToks pre).length + 0)]
+    ((itemsToks pre).length + (1 + (itemsToks body).length + 1) + (itemsToks post).length) (post.length + 1 + pre.length)
+    (szItems pre + szItems post + (szItems body + body.length + 3) + 1) _ H.ok H.fit hc hfirst hbom H.hToks H.wfPreB H.wfBc H.fresh
+    H.wfPostB (fun b hb => List.mem_cons_of_mem _ (List.mem_map.mpr ⟨b, hb, rfl⟩)) List.mem_cons_self
+    (by simp only [List.length_append, List.length_cons]; omega)
+    (by intro cj hcj; simp only [List.mem_singleton] at hcj; subst hcj; simp only [List.length_append, List.length_cons]; omega)
+    (fun _ => Seg.of_at fun rest' s fuel w hw hf hfol hF => by
+      have := C12_frame_not_allowed_at o (denote o.dia o.normKey preB) bc hnewc hmfd pre post fc body [] seen2 rest' s fuel w [] [] hw hpre
+        (nil_seen o) hcode (by intro x hx; cases hx) hwb hpost hseen2 hf (fun _ => hfol) (by simpa [List.append_assoc] using hF)
+      simpa using this)
+  refine ⟨rs, ?_, by simpa [shiftSpec] using h2, by simpa [shiftSpec] using h3⟩
+  have hpk : allPacked (denoteItems o.dia o.normKey (pre ++ post) []) := by
+    simpa using allPacked_run o pre post [] seen2 hpre hpost (fun _ h => h)
+  rw [h1, pruneC_packed _ _ _ hpk]
+  have e : denoteElems o.dia o.normKey (pre.map Elem.plain ++ [.frame fc (body.map Elem.plain)] ++ post.map Elem.plain) [] []
+      = ([.mk fc [] (denoteItems o.dia o.normKey body [])], denoteItems o.dia o.normKey (pre ++ post) []) := by
+    rw [denoteElems_append, denoteElems_append, denoteElems_plains, denoteElems_frame, denoteElems_plains, denoteElems_plains,
+      denoteItems_append]
+    simp [denoteElems]
+  have e' : denoteElems o.dia o.normKey (pre.map Elem.plain ++ Elem.frame fc (body.map Elem.plain) :: post.map Elem.plain) [] []
+      = ([.mk fc [] (denoteItems o.dia o.normKey body [])], denoteItems o.dia o.normKey (pre ++ post) []) := by
+    simpa using e
+  simp [denote, denoteBlock, e']
+
 /-! ### non-vacuity: the hypotheses are satisfiable (a defect in a frame, two defects in a block, a defect two frames deep) -/
 
 namespace C12Frames
@@ -676,6 +737,43 @@ theorem C12_chars_dup_header_name_partial_packet_instance :
     [[.str (a!"1") .bare, .str (a!"2") .bare, .str (a!"3") .bare]] [.str (a!"4") .bare] [a!"_p", a!"_q"] exHost4
     rfl (by decide) (by decide) (by decide) (by decide) (by decide) (by decide) (by decide) (by decide) (by decide) (by decide)
     (by decide) rfl (by decide)
+
+/-- save frames switched off: `data_a ⏎ _p 1 ⏎ save_f ⏎ _y 'v w' ⏎ save_ ⏎` with `max_frame_depth = 0` -/
+def opts0 : Opts := { C12.opts2 with maxFrameDepth := 0 }
+
+def exCs5 : List Chunk :=
+  [.tk (.data (a!"a")), .ws [.eol], .tk (.name (a!"_p")), .ws [.blank 32], .tk (.val .bare (a!"1")), .ws [.eol],
+   .tk (.save (a!"f")), .ws [.eol], .tk (.name (a!"_y")), .ws [.blank 32], .tk (.val .squote (a!"v w")), .ws [.eol],
+   .tk .saveEnd, .ws [.eol]]
+
+theorem exOk5 : okC .cif2 .end_ [] exCs5 := by
+  simp only [exCs5, okC, List.nil_append]
+  repeat' apply And.intro
+  all_goals first | decide | (intro h; cases h) | exact Or.inl rfl | (right; intro b rest h; cases h) | exact List.all_eq_true.mp (by decide)
+
+theorem exHost5 : PlainHost opts0 exCs5 [] [] (a!"a")
+    (itemsToks [.item (a!"_p") (.str (a!"1") .bare)] ++ ((.frameHead, a!"f") ::
+      (itemsToks [.item (a!"_y") (.str (a!"v w") .squote)] ++ (.frameTerm, []) :: itemsToks []))) where
+  store := rfl
+  utf := rfl
+  ok := exOk5
+  fit := by decide
+  first := ⟨100, _, rfl, by decide, by decide⟩
+  plainPre := by intro b hb; cases hb
+  plainPost := by intro b hb; cases hb
+  wfPreB := rfl
+  wfBc := by decide
+  fresh := by intro b hb; cases hb
+  wfPostB := rfl
+  hToks := by decide
+
+/-- non-vacuity of `C12_chars_frame_not_allowed`: one report, 3 tokens into the text (at `save_f`) -/
+theorem C12_chars_frame_not_allowed_instance :
+    Reports opts0 exCs5 [(CIF_FRAME_NOT_ALLOWED, 3)]
+      (denote .cif2 id [{ code := a!"a", body := [.plain (.item (a!"_p") (.str (a!"1") .bare)),
+        .frame (a!"f") [.plain (.item (a!"_y") (.str (a!"v w") .squote))]] }]) :=
+  C12_chars_frame_not_allowed opts0 exCs5 [] [] (a!"a") [.item (a!"_p") (.str (a!"1") .bare)] [] (a!"f")
+    [.item (a!"_y") (.str (a!"v w") .squote)] [a!"_p"] rfl exHost5 (by decide) (by decide) (by decide) rfl (by decide)
 
 end C12Frames
 
